@@ -706,3 +706,7 @@ def run(tier, seed):
     if rep.cases == 0:
         rep.inconclusive.append("vacuous: nothing explored")
     return core.finish(rep)
+
+
+def replay_file(v):
+    return replay(v["replay"])
